@@ -311,12 +311,28 @@ func gen(r *vh.Rand) string {
 		}
 		ops = append(ops, balOps(r, elig()+r.Range(1, 9))...)
 	}
+	// a session-sticky call in between (sorts the list by AddrInfo: with >= 11 members, or after members were added,
+	// that changes the tie-break order of smoothBalance), in mid-period or exactly at a period boundary
+	if (len(ws) >= 11 || r.Chance(1, 12)) && r.Chance(1, 2) && W > 0 && W <= 500 {
+		if r.Chance(1, 2) {
+			for len(ops) > 0 && strings.HasPrefix(ops[len(ops)-1], "bal ") {
+				ops = ops[:len(ops)-1]
+			}
+			ops = append(ops, balOps(r, r.Range(1, 2)*W)...)
+		}
+		ops = append(ops, "sticky")
+		ops = append(ops, balOps(r, r.Range(1, 2)*elig()+r.Range(0, 5))...)
+	}
 	// 40%: configuration / availability changes followed by more calls
 	if r.Chance(2, 5) {
 		rounds := r.Range(1, 3)
 		for k := 0; k < rounds; k++ {
 			switch r.Intn(6) {
-			case 0: // reload with identical conf
+			case 0: // reload with identical conf (sometimes preceded by a sticky call that sorts the list)
+				if r.Chance(1, 4) {
+					ops = append(ops, "sticky")
+					ops = append(ops, balOps(r, elig()+r.Range(0, 5))...)
+				}
 			case 1: // change one weight
 				i := r.Intn(len(ws))
 				ws[i] = r.Range(-1, 40)
@@ -597,6 +613,11 @@ func exec3(op string, wd *world) string {
 				p = strings.Join(ps, ",")
 			}
 			out = append(out, "p="+p+";"+wd.dump())
+		case f[0] == "sticky" && len(f) == 1:
+			// one session-sticky selection on the same BalanceRR (what a cluster switched to SessionSticky does):
+			// stickyBalance sorts brr.backends by AddrInfo; which backend it returns is C02's business
+			wd.brr.Balance(bal_slb.WrrSticky, []byte("k"))
+			out = append(out, "ok;"+wd.dump())
 		case f[0] == "ss" && len(f) == 2:
 			t, err := strconv.Atoi(f[1])
 			if err != nil || t < 0 {
